@@ -8,19 +8,23 @@
 // cryptos built with a reduced overflow length.
 //
 // Families:
-//   roundtrip  two ALTS conns (client/server side) over an in-memory byte pipe
-//              with a middlebox that re-segments the ciphertext (1-byte dribble,
-//              coalescing, random cuts, cuts around record/header boundaries);
-//              writes and reads are interleaved by a PRNG script.
-//   tamper     for a written stream, an enumerated list of corruptions (every
-//              field class x record, record drop/duplicate/swap/reflect,
-//              truncation, byte insert/delete; exhaustive single-byte corruption
-//              of small streams) is applied and a fresh reader reads to the end.
-//   nonce      identical plaintext records must never produce identical
-//              ciphertext (a repeated nonce would), across counter carries and
-//              the rekey boundary.
-//   counter    Counter with small overflow length: strictly increasing, bytes
-//              above the overflow length untouched, invalid exactly at the wrap.
+//
+//	roundtrip  two ALTS conns (client/server side) over an in-memory byte pipe
+//	           with a middlebox that re-segments the ciphertext (1-byte dribble,
+//	           coalescing, random cuts, cuts around record/header boundaries);
+//	           writes and reads are interleaved by a PRNG script.
+//	tamper     for a written stream, an enumerated list of corruptions (every
+//	           field class x record, record drop/duplicate/swap/reflect,
+//	           truncation, byte insert/delete; exhaustive single-byte corruption
+//	           of small streams) is applied and a fresh reader reads to the end.
+//	nonce      identical plaintext records must never produce identical
+//	           ciphertext (a repeated nonce would), across counter carries and
+//	           the rekey boundary.
+//	counter    Counter with small overflow length: strictly increasing, bytes
+//	           above the overflow length untouched, invalid exactly at the wrap.
+//	nearwrap   the REAL overflow lengths (5 and 8 bytes): Counter, the record
+//	           cryptos from the exported constructors and NewConn-level conns
+//	           with their counters moved (white-box) just below the wrap.
 //
 // R2 note: the 3 high bytes of the 4-byte message-type field are neither
 // authenticated nor checked by the implementation (only type&0xff); they are
@@ -999,6 +1003,283 @@ func c52SealWrap(r *vlib.Run, fam string, idx int) {
 	r.Nontrivial(fmt.Sprintf("sealwrap/rekey=%v/side%v", rekey, side))
 }
 
+// ---------- family nearwrap: the REAL overflow lengths (5: aes128gcm, 8: aes128gcmRekey) just below their wrap ----------
+
+// c52NearWrapValue returns cur with its low ovf bytes set to (2^(8*ovf)-1) - k.
+func c52NearWrapValue(cur []byte, ovf int, k uint64) []byte {
+	v := append([]byte{}, cur...)
+	for i := 0; i < ovf; i++ {
+		v[i] = 0xFF
+	}
+	// subtract k (k < 2^16) from the little-endian low bytes
+	borrow := k
+	for i := 0; i < ovf && borrow > 0; i++ {
+		d := borrow & 0xFF
+		borrow >>= 8
+		if uint64(v[i]) < d {
+			v[i] = byte(uint64(v[i]) + 256 - d)
+			borrow++
+		} else {
+			v[i] -= byte(d)
+		}
+	}
+	return v
+}
+
+// c52SetCounters positions the out counter of crypto w and/or the in counter of
+// crypto r k records before the wrap, keeping the side bit they were created with.
+func c52SetCounters(w, r ALTSRecordCrypto, k uint64) (ovf int, ok bool) {
+	set := func(c *Counter, o int) {
+		cur, _ := c.Value()
+		*c = CounterFromValue(c52NearWrapValue(cur, o, k), o)
+	}
+	switch x := w.(type) {
+	case *aes128gcm:
+		ovf = overflowLenAES128GCM
+		set(&x.outCounter, ovf)
+	case *aes128gcmRekey:
+		ovf = overflowLenAES128GCMRekey
+		set(&x.outCounter, ovf)
+	case nil:
+	default:
+		return 0, false
+	}
+	switch x := r.(type) {
+	case *aes128gcm:
+		ovf = overflowLenAES128GCM
+		set(&x.inCounter, ovf)
+	case *aes128gcmRekey:
+		ovf = overflowLenAES128GCMRekey
+		set(&x.inCounter, ovf)
+	case nil:
+	default:
+		return 0, false
+	}
+	return ovf, true
+}
+
+func c52NearWrap(r *vlib.Run, fam string, idx int) {
+	rng := r.Rand(fam, idx)
+	proto := []string{c52ProtoRekey, c52ProtoGCM}[idx%2]
+	side := []core.Side{core.ClientSide, core.ServerSide}[(idx/2)%2]
+	peer := core.Side(1 - int(side))
+	k := uint64(rng.Intn(40)) // records that can still be sealed after the first one
+	if rng.Intn(5) == 0 {
+		k = 250 + uint64(rng.Intn(20)) // crosses a byte carry on the way to the wrap
+	}
+	if idx < 4 {
+		k = uint64(idx) // must-hit prefix: cases 0..3 cover both cryptos x both sides right at the wrap
+	}
+	key := c52Key(rng, proto)
+	desc := fmt.Sprintf("proto=%s side=%v records-before-wrap=%d", proto, side, k+1)
+	r.Progress(fam, idx, desc)
+	fail := func(kk, f string, a ...any) {
+		r.Violation(kk, fam, idx, map[string]any{"params": desc}, "[%s] "+f, append([]any{desc}, a...)...)
+	}
+	defer func() {
+		if p := recover(); p != nil {
+			fail("nearwrap-panic", "panic: %v", p)
+		}
+	}()
+	mkCrypto := func(s core.Side) ALTSRecordCrypto {
+		var c ALTSRecordCrypto
+		var err error
+		if proto == c52ProtoRekey {
+			c, err = NewAES128GCMRekey(s, key)
+		} else {
+			c, err = NewAES128GCM(s, key)
+		}
+		if err != nil {
+			panic(err)
+		}
+		return c
+	}
+
+	// (a) the Counter itself with the configured overflow length, started k below the wrap
+	ovf := overflowLenAES128GCM
+	if proto == c52ProtoRekey {
+		ovf = overflowLenAES128GCMRekey
+	}
+	func() {
+		base := NewOutCounter(side, ovf)
+		cur, _ := base.Value()
+		c := CounterFromValue(c52NearWrapValue(cur, ovf, k), ovf)
+		first, _ := c.Value()
+		high := append([]byte{}, first[ovf:]...)
+		var n uint64
+		prev := uint64(0)
+		for n <= k+5 {
+			v, err := c.Value()
+			if err != nil {
+				break
+			}
+			lowv := c52LE(v[:ovf])
+			if n > 0 && lowv <= prev {
+				fail("counter-repeats", "Counter(overflowLen %d) started %d below the wrap: value #%d is %#x after %#x — it wrapped instead of becoming invalid", ovf, k, n, lowv, prev)
+				return
+			}
+			if !bytes.Equal(v[ovf:], high) {
+				fail("counter-high-bytes-changed", "Counter(overflowLen %d): bytes above the overflow length changed: %x -> %x", ovf, high, v[ovf:])
+				return
+			}
+			prev = lowv
+			n++
+			c.Inc()
+		}
+		if n != k+1 {
+			fail("counter-wrap-point", "Counter(overflowLen %d) started %d below the wrap yielded %d valid values, want exactly %d", ovf, k, n, k+1)
+			return
+		}
+		for j := 0; j < 300; j++ {
+			c.Inc()
+			if _, err := c.Value(); err == nil {
+				fail("counter-revived", "Counter(overflowLen %d) became valid again %d increments after the wrap", ovf, j+1)
+				return
+			}
+		}
+		r.Count("nearwrap_counter_values", int64(n))
+	}()
+
+	// record 0..2 of a fresh crypto with the same key and side: what a wrapped counter would reproduce
+	pt := make([]byte, 24)
+	fresh := mkCrypto(side)
+	var early [][]byte
+	for j := 0; j < 3; j++ {
+		ct, err := fresh.Encrypt(nil, pt)
+		if err != nil {
+			fail("nearwrap-setup", "fresh Encrypt: %v", err)
+			return
+		}
+		early = append(early, ct)
+	}
+
+	// (b) the record crypto built by the exported constructor, counters moved next to the wrap
+	func() {
+		enc, dec := mkCrypto(side), mkCrypto(peer)
+		if _, ok := c52SetCounters(enc, dec, k); !ok {
+			fail("nearwrap-setup", "unknown crypto type %T", enc)
+			return
+		}
+		seen := map[string]uint64{}
+		for j, e := range early {
+			seen[string(e)] = uint64(1<<62) + uint64(j)
+		}
+		var sealed uint64
+		for sealed <= k+4 {
+			ct, err := enc.Encrypt(nil, pt)
+			if err != nil {
+				break
+			}
+			if j, dup := seen[string(ct)]; dup {
+				what := fmt.Sprintf("record #%d", j)
+				if j >= 1<<62 {
+					what = fmt.Sprintf("record #%d of a fresh connection with the same key", j-(1<<62))
+				}
+				fail("nonce-reused", "Encrypt #%d (counter started %d below the wrap) produced the ciphertext of %s: key and nonce reused after the counter wrapped", sealed, k, what)
+				return
+			}
+			seen[string(ct)] = sealed
+			if sealed <= k {
+				if got, err := dec.Decrypt(nil, append([]byte{}, ct...)); err != nil || !bytes.Equal(got, pt) {
+					fail("nearwrap-roundtrip", "record #%d before the wrap does not decrypt at the peer: %v", sealed, err)
+					return
+				}
+			}
+			sealed++
+		}
+		if sealed != k+1 {
+			fail("seal-after-wrap", "%T with its real overflow length sealed %d records from a counter %d below the wrap; want exactly %d and then an error", enc, sealed, k, k+1)
+			return
+		}
+		// the receiver's counter is exhausted as well: a record sealed under counter 0 must not be accepted
+		for j, e := range early {
+			if _, err := dec.Decrypt(nil, append([]byte{}, e...)); err == nil {
+				fail("open-after-wrap", "receiver whose in-counter wrapped accepted record #%d of a fresh connection (sealed under a repeated counter)", j)
+				return
+			}
+		}
+		r.Count("nearwrap_crypto_records", int64(sealed))
+	}()
+
+	// (c) through the record protocol: NewConn-level Write/Read
+	{
+		pipe := &c52Pipe{segMode: rng.Intn(5), rng: rng, eof: true}
+		wn, err := NewConnWithMaxFrameSize(&c52Net{in: &c52Pipe{rng: rng, eof: true}, out: pipe}, side, proto, key, nil, 0)
+		if err != nil {
+			fail("newconn", "%v", err)
+			return
+		}
+		rn, err := NewConnWithMaxFrameSize(&c52Net{in: pipe, out: &c52Pipe{rng: rng}}, peer, proto, key, nil, 0)
+		if err != nil {
+			fail("newconn", "%v", err)
+			return
+		}
+		if _, ok := c52SetCounters(wn.(*conn).crypto, rn.(*conn).crypto, k); !ok {
+			fail("nearwrap-setup", "unknown crypto type %T", wn.(*conn).crypto)
+			return
+		}
+		var written uint64
+		var plain []byte
+		for written <= k+4 {
+			msg := c52Plain(rng, 1+rng.Intn(40))
+			n, err := wn.Write(msg)
+			if err != nil {
+				break
+			}
+			if n != len(msg) {
+				fail("write", "Write(%d) = %d, nil", len(msg), n)
+				return
+			}
+			plain = append(plain, msg...)
+			written++
+		}
+		if written != k+1 {
+			fail("seal-after-wrap", "conn.Write kept succeeding after the record counter wrapped: %d single-record writes succeeded from a counter %d below the wrap, want exactly %d (%s)", written, k, k+1, proto)
+			return
+		}
+		recs, perr := c52Parse(pipe.buf)
+		if perr != nil || uint64(len(recs)) != k+1 {
+			fail("wire-malformed", "%d successful writes left %d parsable records on the wire (%v)", written, len(recs), perr)
+			return
+		}
+		// the peer reads exactly what was written ...
+		var got []byte
+		var rerr error
+		for rerr == nil && len(got) <= len(plain)+64 {
+			var b []byte
+			b, rerr = c52ReadOnce(rn, 1+rng.Intn(100), rng.Intn(2))
+			got = append(got, b...)
+		}
+		if !bytes.Equal(got, plain) {
+			fail("wrong-plaintext", "peer read %d bytes != the %d written before the wrap (err %v)", len(got), len(plain), rerr)
+			return
+		}
+		// ... and then must reject a record sealed under counter 0 (what a wrapped sender would emit)
+		wn2, _ := NewConnWithMaxFrameSize(&c52Net{in: &c52Pipe{rng: rng, eof: true}, out: &c52Pipe{rng: rng}}, side, proto, key, nil, 0)
+		p2 := wn2.(*conn).Conn.(*c52Net).out
+		if _, err := wn2.Write([]byte("replayed under counter zero")); err != nil {
+			fail("nearwrap-setup", "fresh conn Write: %v", err)
+			return
+		}
+		pipe.buf = append(pipe.buf, p2.buf...)
+		b, err := c52ReadOnce(rn, 64, 0)
+		if err == nil || len(b) > 0 {
+			fail("open-after-wrap", "receiver whose in-counter is exhausted accepted a record sealed under counter 0: Read = %q, %v", b, err)
+			return
+		}
+		r.Count("nearwrap_conn_records", int64(written))
+	}
+	r.Eval(1)
+	kb := "k<4"
+	switch {
+	case k >= 250:
+		kb = "k>=250(carry)"
+	case k >= 4:
+		kb = "k4-39"
+	}
+	r.Nontrivial(fmt.Sprintf("nearwrap/%s/ovf%d/side%v/%s", proto[len("C52_VERIF_"):], ovf, side, kb))
+}
+
 func TestVerifC52(t *testing.T) {
 	c52Register()
 	r := vlib.Start(t, "C52")
@@ -1014,9 +1295,10 @@ func TestVerifC52(t *testing.T) {
 	run("nonce", r.N(8, 40), c52Nonce)
 	run("counter", r.N(60, 600), c52CounterCase)
 	run("sealwrap", r.N(8, 40), c52SealWrap)
+	run("nearwrap", r.N(48, 600), c52NearWrap)
 	r.Finish(vlib.Spec{
 		Level: "fault_enumeration",
-		Rule: "roundtrip: PRNG scripts of interleaved writes (0..2 MiB, sizes around payload/frame/write-buffer boundaries) and reads (1 B..1 MiB, Read and ReadOnReady) in both directions over a re-segmenting pipe (dribble, coalesce, random, header/record-boundary cuts, bytes pre-read by the handshaker), frame sizes 0/10/4096..524288, both record cryptos; tamper: per written stream an enumerated fault list (bit flips in every field class of first/middle/last record, length-field values, drop/duplicate/swap/reflect records, truncation, byte insert/delete; every 8th case all single-byte corruptions x3 masks of a small stream) each read by a fresh peer to the end; nonce: identical-plaintext records compared pairwise across the 2^8 and 2^16 counter carries (rekey boundary); counter/sealwrap: Counter and record cryptos with overflow length 1..3 run to the wrap; distinct = (family, crypto, frame-size bucket, segmentation modes, idle-realloc/early/big/full-frame flags) | (crypto, fault class, error class) | ...",
+		Rule:  "roundtrip: PRNG scripts of interleaved writes (0..2 MiB, sizes around payload/frame/write-buffer boundaries) and reads (1 B..1 MiB, Read and ReadOnReady) in both directions over a re-segmenting pipe (dribble, coalesce, random, header/record-boundary cuts, bytes pre-read by the handshaker), frame sizes 0/10/4096..524288, both record cryptos; tamper: per written stream an enumerated fault list (bit flips in every field class of first/middle/last record, length-field values, drop/duplicate/swap/reflect records, truncation, byte insert/delete; every 8th case all single-byte corruptions x3 masks of a small stream) each read by a fresh peer to the end; nonce: identical-plaintext records compared pairwise across the 2^8 and 2^16 counter carries (rekey boundary); counter/sealwrap: Counter and record cryptos with overflow length 1..3 run to the wrap; nearwrap: the configured overflow lengths (5 aes128gcm, 8 aes128gcmRekey), both sides, counters placed 0..270 records below the wrap (white-box) at Counter, record-crypto (exported constructors) and NewConn level: exactly k+1 seals, then error; no ciphertext equal to a fresh connection's first records; exhausted receiver rejects a counter-0 record; distinct = (family, crypto, frame-size bucket, segmentation modes, idle-realloc/early/big/full-frame flags) | (crypto, fault class, error class) | ...",
 		Assumptions: []string{
 			"wire format parsed by the monitor: 4-byte LE length, 4-byte LE type (0x6), ciphertext, 16-byte tag",
 			"frame sizes below 4096 (incl. 0 = not negotiated) are clamped to 4096 by design; the limit judged is max(4096, negotiated)",
